@@ -47,10 +47,26 @@ class HarnessOnlyError(Exception):
 FAULTS[8] = HarnessOnlyError
 
 KNOWN_HANG = "C18-K1"   # id in known_findings.json: a dying worker process without timeout hangs parallel_function
-KNOWN_K2 = "C18-K2"     # the cpus == 1 shortcut of parallel_function ignores the timeout (model: finding_K2, class 2)
+# C18-K2 (class cpus1_shortcut_ignores_timeout: the cpus == 1 shortcut of parallel_function ignored the timeout) is
+# REPAIRED (`if cpus == 1 and timeout is None`): nothing is suppressed for it, its recorded witness is the regression
+# corpus below (run first, on every run and for every seed), and the model answers finding class 0 for every input
 K2_CLASS = "cpus1_shortcut_ignores_timeout"
 FN_TIMELY = 7           # model: does the schedule agree with the duration classes?
-SLOW_SLEEP = 2.5        # seconds a "slow" in-process task really sleeps (against a timeout of 1 s)
+SLOW_SLEEP = 2.5        # seconds a "slow" task of the one-worker cases really sleeps (against a timeout of 1 s)
+
+# regression corpus: the recorded witness of the repaired finding C18-K2 (known_findings.json, status fixed) -
+# parallel_function(work, [[0], [1], [2]], cpus=1, timeout=1) where the second call sleeps 2.5 s and no call raises,
+# the worker count given directly and through the configuration (--cpus 1 with cpus None / 0), as a list and as a
+# generator.  Before the repair the full list came back after 2.5 s; now RuntimeError after 1 s, as for 2 workers
+# (third entry: the same batch with two workers, the outcome the one-worker runs must share).
+REGRESSION_CORPUS = [
+    {"kind": "work", "cfg": 2, "cpus": 1, "timeout": 1, "generator": False, "class": "timeout-1worker",
+     "tasks": [[0, 0.0, 0], [1, SLOW_SLEEP, 0], [2, 0.0, 0]], "regression_of": K2_CLASS},
+    {"kind": "work", "cfg": 1, "cpus": None, "timeout": 1, "generator": True, "class": "timeout-1worker",
+     "tasks": [[0, 0.0, 0], [1, SLOW_SLEEP, 0], [2, 0.0, 0]], "regression_of": K2_CLASS},
+    {"kind": "work", "cfg": 1, "cpus": 2, "timeout": 1, "generator": False, "class": "timeout",
+     "tasks": [[0, 0.0, 0], [1, SLOW_SLEEP, 0], [2, 0.0, 0]], "regression_of": K2_CLASS},
+]
 
 # ---------------------------------------------------------------- worker functions (module level: picklable)
 
@@ -859,13 +875,17 @@ def gen_work_cases(rng, tier):
     specs.append({"kind": "work", "cfg": 2, "cpus": 3, "timeout": 0, "tasks": [], "generator": False, "class": "timeout"})
     specs.append({"kind": "work", "cfg": 2, "cpus": 3, "timeout": 0, "tasks": [[1, 0.3, 0, SYNC_WAIT], [2, 0.3, 0, SYNC_WAIT]],
                   "generator": False, "class": "timeout"})
-    # the shortcut ignores the timeout
+    # one worker: the shortcut is only taken when timeout is None; timeout 0 is a timeout (pool of one worker,
+    # nothing can be ready at once), no timeout runs in-process
     specs.append({"kind": "work", "cfg": 1, "cpus": 1, "timeout": 0, "tasks": [[1, 0.01, 0], [2, 0.0, 0]],
                   "generator": False, "class": "timeout"})
-    # ONE worker and a timeout of one second (the in-process shortcut; nobody could give a go signal, so the slow
-    # task really sleeps SLOW_SLEEP seconds - it cannot end early, whatever the load): worker count given
-    # directly and through the configuration; all fast with a generous timeout; a raising task before the slow one
-    # (which then never runs)
+    specs.append({"kind": "work", "cfg": 1, "cpus": 1, "timeout": None, "tasks": [[1, 0.01, 0], [2, 0.0, 0]],
+                  "generator": False, "class": "plain"})
+    # ONE worker and a timeout of one second (a pool of one worker since the repair of C18-K2; the slow task
+    # really sleeps SLOW_SLEEP seconds - a sleep cannot end early, whatever the load - so the case keeps its
+    # meaning against a dispatcher that runs it in-process, where nobody could give a go signal): worker count
+    # given directly and through the configuration; all fast with a generous timeout; a raising task before the
+    # slow one (the result is only ready once every chunk is done, so the timeout surfaces, as with more workers)
     for cfg, cpus in ([(2, 1), (1, None)] if not thorough else [(2, 1), (1, None), (1, 0), (7, 1)]):
         n = rng.choice([1, 2, 3, 5])
         tasks = [[rng.randrange(0, 150), 0.0, 0] for _ in range(n)]
@@ -883,7 +903,8 @@ def gen_work_cases(rng, tier):
         tasks[rng.randrange(n)][2] = CRASH
         specs.append({"kind": "work", "cfg": 2, "cpus": k, "timeout": timeout, "tasks": tasks, "generator": False,
                       "class": "crash", "alarm": 4 if timeout is None else 60})
-    return specs
+    # the regression corpus (fixed cases, independent of the seed) comes first
+    return [dict(spec, tasks=[list(t) for t in spec["tasks"]]) for spec in REGRESSION_CORPUS] + specs
 
 
 def chunk_index(n, procs, i):
@@ -1150,8 +1171,9 @@ RULE = ("real multiprocessing pools: worker counts 1..16 (quick: 1,2,3,4,5,8,13,
         "from argument order; result values of seven shapes up to 100 kB; a raising task (8 exception kinds) at every position; "
         "two kinds with the later one reported first (ordering enforced by a go-file event, not by sleeps); timeouts 0/1 s against "
         "tasks that cannot finish before the call has returned (they wait for a signal given afterwards); ONE worker with a "
-        "timeout of 1 s against a task that really sleeps 2.5 s (the in-process shortcut: finding C18-K2), with a generous timeout, "
-        "with a raising task first; dying worker processes; "
+        "timeout of 1 s against a task that really sleeps 2.5 s (the shortcut is only taken without a timeout; regression "
+        "corpus: the witness of the repaired finding C18-K2, cpus=1 / --cpus 1, run first for every seed), with a generous "
+        "timeout, with a raising task first, timeout 0 and no timeout with one worker; dying worker processes; "
         "secmet Records (genes, protoclusters, regions, circular) through identity, sanitise_sequence and ensure_cds_info with a stub "
         "gene finder; parallel_execute with real child processes for 1, 2, 4 (thorough 1,2,3,4,8,16) workers, given directly or "
         "through the configuration: all fast, non-zero return codes, empty batch, more commands than workers, a command that cannot "
@@ -1204,6 +1226,7 @@ def run(chk):
     # slow cases first, so that they overlap with the rest instead of forming a tail
     specs.sort(key=lambda sp: 0 if sp["class"] in ("crash", "timeout", "timeout-1worker", "exec-timeout", "mixed-fault") else 1)
     known = {f["id"]: f for f in common.load_known_findings("C18") if f.get("status") == "known"}
+    chk.count("regression_corpus_cases", sum(1 for sp in specs if sp.get("regression_of")))
     # the implementation runs in helper processes (non-daemonic, so that they may own pools), 4 at a time
     workers = 4
     ctx = multiprocessing.get_context("fork")
@@ -1287,7 +1310,8 @@ def run(chk):
         seq = res["seq"]
         n = len(seq)
         timeout = spec["timeout"]
-        pool = eff > 1 or (kind == "exec" and eff >= 1)
+        # parallel_function takes the in-process shortcut only for one worker AND no timeout; parallel_execute never
+        pool = eff > 1 or (eff == 1 and (kind == "exec" or timeout is not None))
         nchunks = len(chunk_bounds(n, eff)) if pool else 0
         if kind == "work":
             tasks = spec["tasks"]
@@ -1365,19 +1389,15 @@ def run(chk):
                 continue
             if spec["class"] == "crash" and spec["timeout"] is None and KNOWN_HANG in known and impl_outs[i] == [1, E_HANG]:
                 continue      # recorded finding; the model transcribes the hang (compared below)
-            if (verdict[1:2] == [2] and cases[i][1] == FN_PF and KNOWN_K2 in known
-                    and known[KNOWN_K2].get("class") == K2_CLASS and impl_outs[i] == model_outs[i]
-                    and impl_outs[i][0] == 0):
-                # recorded finding C18-K2: input in the class (model: finding_K2), class listed, and the
-                # implementation behaves as the faithful model does (the list comes back, the timeout is ignored)
-                chk.count("finding_K2_cases")
-                chk.known(known[KNOWN_K2]["what_fails"])
-                continue
+            # (no suppression for the repaired finding C18-K2: a list coming back from parallel_function with one
+            # worker although a job exceeds the timeout is a counterexample again)
             chk.violation("counterexample", "outcome differs from the dispatcher's sequential specification (error when a "
                           "job exceeds the timeout or raises, otherwise the results in argument order) "
                           f"({describe(cases[i])['function']}, class {spec['class']})",
                           {"theorem_or_correspondence": "C18_order / C18_failure_surfaces / C18_execute_timeout_surfaces / "
-                                                        "C18_execute_equals_dispatch_spec (tspec_ok on the implementation's output)",
+                                                        "C18_function_timeout_surfaces / C18_execute_equals_dispatch_spec / "
+                                                        "C18_function_equals_dispatch_spec (tspec_ok on the implementation's output)",
+                           "regression_witness_of_repaired_class": spec.get("regression_of"),
                            "flat": cases[i], "implementation": impl_outs[i],
                            "input": {k: v for k, v in spec.items() if k != "records" or spec["kind"] == "preproc"},
                            "jobs_exceeding_the_timeout": [j for j, f in enumerate(slow_flags(spec, len(spec.get("tasks") or spec.get("commands") or []))) if f][:20]
